@@ -1,7 +1,8 @@
 (** C19 correspondence entries.
     [entry_c19]: args = line, cursor, opts, the marker TREE, then the tree fields printed by harness/src/p_hl.rs
-      result = [C n (s e k)*] or [PANIC], followed by [H code] (the hypothesis check of
-      Spans.v: 0 = the theorems' hypotheses hold for this input).
+      result = [C n (s e k)*] or [PANIC], followed by [H code aligned] (the hypothesis checks of
+      Spans.v: code 0 = the hypotheses of spans_cover hold for this input; aligned 1 = every
+      position handed to append_span is a char boundary, the hypothesis of the clamped form).
     [entry_c19spec]: args = line, n, (s e k)* ; result = the decidable spec of Spec.v on
       these spans (used on the spans returned by the code). *)
 From Coq Require Import String.
@@ -127,7 +128,9 @@ Definition entry_c19 (a : list str) : list str :=
   | line :: cursor :: _ :: _ :: r =>
       match dec_prog (4 + 2 * length r) r with
       | Some (p, []) =>
-          show_result (highlight line (dec_nat cursor) p) ++ [lit "H"; enc_nat (prog_ok line p)]
+          show_result (highlight line (dec_nat cursor) p)
+            ++ [lit "H"; enc_nat (prog_ok line p);
+                enc_bool (calls_aligned line (prog_calls (dec_nat cursor) line 0 p))]
       | _ => [lit "?bad-tree"]
       end
   | _ => [lit "?bad-args"]
